@@ -44,7 +44,11 @@ MANIFEST = dict(
          "repaired rule); state marks survive when the posting's state equals the transaction's or the transaction is uncleared "
          "(C06.state_marks_partial; C06.state_marks for the repaired rule); the equity transaction carries, per account and "
          "commodity, exactly the sum of the journal's postings (C06.equity_reproduces_balances, a fold identity with no size bound) "
-         "and keeps it through print | re-read when the balances are display-exact (C06.equity_through_text_partial). Where the pinned "
+         "and keeps it through print | re-read when the balances are display-exact (C06.equity_through_text_partial). Three of the "
+         "defects found were repaired in /repo (state mark f798b3e, elision guard bf17db1, trailing pad affa0b1): the extractor now "
+         "reads the repaired forms, which are proof obligations (C06.source_marks_when_state_differs, "
+         "C06.source_elision_checks_must_balance, C06.source_pads_only_with_amount), and the FULL statements hold for the current "
+         "source (C06.state_marks_source, C06.elide_second_amount_sound_source, C06.render_fixpoint_source). Where the pinned "
          "code violates the full statement (posting state dropped under a cleared transaction; second amount elided between "
          "(virtual) postings; blanks written after an elided amount on a long account; equity rounds to display precision) the full "
          "statement is kept as a Prop, refuted on a concrete witness (…_counterexample, …_source_counterexample under the flag "
@@ -67,7 +71,8 @@ MANIFEST = dict(
          "with a finite expansion, years 1400..9999). The driver renders with its own small executable codec (compared with ledger "
          "byte for byte on every case), not with C04's functions; a second lawful instance (Lemmas/PrintToy.lean) serves the "
          "counterexamples. Outside the model (run on the binary only): lot annotations, virtual costs (@), amount expressions, generated "
-         "postings, non-note metadata, zero amounts (printed as a bare 0; an all-zero transaction is omitted by print), empty `;` "
+         "postings, non-note metadata, lot annotations without a price ([date]- or (note)-only: finalize itself overwrites them in an "
+         "implicit exchange), zero amounts (printed as a bare 0; an all-zero transaction is omitted by print), empty `;` "
          "lines inside notes (dropped by print_note), --date-format/--columns options.",
     technique="Lean 4 proof (string-level round trip of a printer/reader pair, fold identity for equity) + pinned source text and "
               "recognised statement forms + byte-level differential model/binary check + implementation-side oracle",
@@ -415,6 +420,66 @@ def assignment_cases(rng, n):
     return cs
 
 
+# every annotation carries a {price}: a date-only or note-only annotation is overwritten by finalize itself when the posting
+# takes part in the implicit exchange between the two (different) annotated commodities, and {=fixed} prices do not compare
+LOT_ANNS = ["", "", "{$5.00}", "{$6.00}", "{$5.00} [2019/12/01]", "{$5.00} [2019/11/15]", "{$5.00} (lot a)",
+            "{$5.00} [2019/12/01] (lot a)", "{$5.00} (lot b)", "{$6.00} [2019/12/01]", "{$6.00} [2019/12/01] (lot a)"]
+
+
+def lot_pair_text(day, payee, ann1, ann2, q1, q2, kinds=("real", "real"), comm="AAPL", state=""):
+    """a two-posting transaction with plain explicit amounts of one base commodity and given lot annotations."""
+    def acct(name, kind):
+        return {"real": name, "virtual": "(" + name + ")", "bvirtual": "[" + name + "]"}[kind]
+    def amt(q, ann):
+        return ("%d %s %s" % (q, comm, ann)).rstrip()
+    return ["%s %s%s" % (jgen.date_text(jgen.day_of(2020, 1, 1) + day), state, payee),
+            "    %s  %s" % (acct("Assets:Broker", kinds[0]), amt(q1, ann1)),
+            "    %s  %s" % (acct("Assets:Other", kinds[1]), amt(q2, ann2)), ""]
+
+
+def lot_pair_cases():
+    """fixed boundary journals for the commodity test of the elision rule (print.cc 230-236): two postings, plain
+    explicit amounts, same base commodity; the lot annotations {price} [date] (note) differ between the two postings, or one
+    posting is annotated and the other plain, or they are identical (control: the second amount may be elided); both signs.
+    Oracle only (lot annotations are outside the Lean model): rows(P) must equal rows(J) including each posting's exact
+    lot text."""
+    pairs = [("{$5.00}", "{$5.00} [2019/12/01]"), ("{$5.00} [2019/12/01]", "{$5.00}"), ("{$5.00}", ""), ("", "{$5.00}"),
+             ("{$5.00}", "{$6.00}"), ("{$5.00} (lot a)", "{$5.00}"), ("{$5.00}", "{$5.00} (lot a)"),
+             ("{$5.00} (lot a)", "{$5.00} (lot b)"), ("{$5.00} [2019/12/01]", "{$5.00} [2019/11/15]"),
+             ("{$5.00} [2019/12/01] (lot a)", "{$5.00} [2019/12/01]"), ("{$5.00} [2019/12/01]", ""), ("", "{$5.00} (lot a)"),
+             ("{$6.00} [2019/12/01]", "{$5.00} [2019/12/01]"), ("{$5.00} [2019/12/01] (lot a)", ""),
+             # controls: identical annotations
+             ("{$5.00}", "{$5.00}"), ("{$5.00} [2019/12/01]", "{$5.00} [2019/12/01]"),
+             ("{$5.00} [2019/12/01] (lot a)", "{$5.00} [2019/12/01] (lot a)"), ("{=$5.00}", "{=$5.00}"), ("", "")]
+    cs = []
+    for k, (a1, a2) in enumerate(pairs):
+        for sign in (1, -1):
+            lines = ["2019/11/01 seed precision", "    Assets:Cash  $1.00", "    Equity:Open  $-1.00", ""]
+            lines += lot_pair_text(k, "pair %d" % k, a1, a2, 10 * sign, -10 * sign)
+            cs.append({"text": "\n".join(lines) + "\n", "xacts": [], "lot_pair": True})
+    # several pairs in one journal, a marked transaction, balanced-virtual postings
+    lines = ["2019/11/01 seed precision", "    Assets:Cash  $1.00", "    Equity:Open  $-1.00", ""]
+    lines += lot_pair_text(1, "p1", "{$5.00}", "{$5.00} [2019/12/01]", -10, 10, state="* ")
+    lines += lot_pair_text(2, "p2", "{$5.00}", "", 7, -7, kinds=("bvirtual", "bvirtual"))
+    lines += lot_pair_text(3, "p3", "{$5.00}", "{$5.00}", 3, -3, kinds=("real", "bvirtual"))
+    lines += lot_pair_text(4, "p4", "", "{$5.00} (lot a)", -4, 4, comm="XY")
+    cs.append({"text": "\n".join(lines) + "\n", "xacts": [], "lot_pair": True})
+    return cs
+
+
+def lot_pair_random(rng, n):
+    cs = []
+    for _ in range(n):
+        lines = ["2019/11/01 seed precision", "    Assets:Cash  $1.00", "    Equity:Open  $-1.00", ""]
+        for k in range(rng.randint(1, 4)):
+            q = rng.randint(1, 500) * rng.choice([1, -1])
+            kinds = rng.choice([("real", "real"), ("real", "real"), ("bvirtual", "real"), ("bvirtual", "bvirtual")])
+            lines += lot_pair_text(k * 3, "payee %d" % rng.randint(1, 12), rng.choice(LOT_ANNS), rng.choice(LOT_ANNS), q, -q,
+                                   kinds=kinds, comm=rng.choice(["AAPL", "XY", "AAA"]), state=rng.choice(["", "", "* ", "! "]))
+        cs.append({"text": "\n".join(lines) + "\n", "xacts": [], "lot_pair": True})
+    return cs
+
+
 def lot_cases(rng, n):
     """oracle-only stream (lot annotations are outside the Lean model): purchases and sales with {price}, {{total}},
     {=fixed}, [date], (tag) annotations, with and without @ / @@ costs; the balancing posting is elided."""
@@ -713,6 +778,11 @@ def oracle(j, obs):
                     elif fld in ("note", "xnote") and "\n\n" in a[fld] + "\n" and a[fld].replace("\n\n", "\n").rstrip("\n") == b[fld]:
                         f = ("C06:print.cc:print_note:empty-note-line-dropped",
                              "an empty `;` line inside a note is not printed: note %r re-reads as %r" % (a[fld], b[fld]))
+                    elif fld == "comm" and base_comm(a["comm"]) == base_comm(b["comm"]) and a["calc"] == "false" and b["calc"] == "true":
+                        f = ("C06:print.cc:elided-amount-changes-lot-details",
+                             "posting %d (%s) was written as %s %s; print elides it (two postings, same base commodity) although "
+                             "the other posting's commodity carries different lot details, and the printed text re-reads it as %s %s"
+                             % (n, a["dacct"], a["q"], a["comm"], b["q"], b["comm"]))
                     else:
                         f = ("C06:print:" + {"q": "amount", "cq": "cost", "comm": "commodity-or-lot", "ccomm": "cost-commodity",
                                              "dacct": "account-or-kind", "xdate": "date", "date": "posting-date",
@@ -723,6 +793,9 @@ def oracle(j, obs):
                     if f[0] not in seen:
                         seen.add(f[0])
                         fails.append(f)
+            if "C06:print.cc:elided-amount-changes-lot-details" in seen:
+                # the other posting's implicit cost / computed lot price change as a consequence: one root cause, one report
+                fails = [f for f in fails if f[0] not in ("C06:print:cost-commodity", "C06:print:cost", "C06:print:commodity-or-lot")]
     # (3) print is a fixpoint on its own output
     rc2, P2, err2 = obs["print2"]
     if rc2 == 0 and P2 != P:
@@ -1010,6 +1083,17 @@ def shrink(j, fp):
     """keep only what is needed for the fingerprint: transactions, then decorations."""
     cur = copy.deepcopy(j)
     budget = 60
+    if "text" in cur:
+        blocks = [b for b in cur["text"].split("\n\n") if b.strip()]
+        k = len(blocks) - 1
+        while k >= 0 and budget > 0 and len(blocks) > 1:
+            cand = blocks[:k] + blocks[k + 1:]
+            c = dict(cur, text="\n\n".join(b.strip("\n") for b in cand) + "\n")
+            budget -= 1
+            if failing_with(c, fp):
+                blocks, cur = cand, c
+            k -= 1
+        return cur
     k = len(cur["xacts"]) - 1
     while k >= 0 and budget > 0 and len(cur["xacts"]) > 1:
         c = copy.deepcopy(cur)
@@ -1220,6 +1304,9 @@ def run(tier, seed):
     fx = fixed_cases()
     ctx.extra_cov["fixed_cases"] = len(fx)
     process(ctx, fx, "fixed")
+    lp = lot_pair_cases()
+    ctx.extra_cov["lot_pair_cases"] = len(lp)
+    process(ctx, lp, "lot-pair-fixed", tie=False)
     process(ctx, empty_note_line_cases(), "empty-note-line")
     process(ctx, zero_amount_cases(), "zero-amount", tie=False,
             expect={"C06:print:commodity-or-lot", "C06:print:cost-commodity", "C06:print:posting-count", "C06:print:not-fixpoint",
@@ -1257,6 +1344,10 @@ def run(tier, seed):
     for _ in lots:
         ctx.feature("stream:lot-annotations")
     process(ctx, lots, "lots", tie=False)
+    pairs = lot_pair_random(rng, 60 if quick else 1500)
+    for _ in pairs:
+        ctx.feature("stream:lot-pairs")
+    process(ctx, pairs, "lot-pairs", tie=False)
     malformed_stream(ctx)
     if ctx.mism:
         ctx.extra_cov["mismatches"] = ctx.mism[:4]
